@@ -146,4 +146,56 @@ theorem ofOpt_ok (f : Array Nat → Bytes) (x : Option (Array Nat) × Rng) (out 
   | none => simp [ofOpt] at h
   | some c => simp only [ofOpt, SeqResult.ok.injEq] at h; exact ⟨c, rfl, h.symm⟩
 
+
+/-! ## the scan never falls off the end (any number type)
+The second loop of `esl_rnd_DChoose` adds the same numbers in the same order as the first, so its last running sum IS `norm`;
+if `norm / norm = 1` and the roll is `< 1` the last test succeeds at the latest. No ordering laws are needed. -/
+section total
+omit [LawfulCNum α]
+
+/-- the scan cannot fall off the end when the last running sum — which IS `norm`: the same numbers added in the same order —
+    divided by `norm` is above the roll -/
+theorem dchooseGo_total_abs (u norm : α) (hlast : lt u (div norm norm) = true) : ∀ (ps : List α) (sum : α) (i : Nat),
+    ps ≠ [] → ps.foldl add sum = norm → ∃ k, dchooseGo u norm ps sum i = some k := by
+  intro ps
+  induction ps with
+  | nil => intro sum i h; exact absurd rfl h
+  | cons q rest ih =>
+    intro sum i _ hf
+    simp only [dchooseGo]
+    split
+    · exact ⟨i, rfl⟩
+    · rename_i hn
+      cases rest with
+      | nil =>
+        simp only [List.foldl_cons, List.foldl_nil] at hf
+        rw [hf] at hn
+        exact absurd hlast hn
+      | cons q2 rest2 => exact ih (add sum q) (i+1) (by simp) (by simpa using hf)
+
+/-- `esl_rnd_DChoose` over ANY number type: with `norm / norm = 1` and `roll < 1` it returns -/
+theorem dchoose_total_abs (u : α) (p : List α) (hp : p ≠ []) (hself : div (p.foldl add zero) (p.foldl add zero) = one)
+    (hu : lt u one = true) : ∃ k, dchoose u p = some k := by
+  unfold dchoose
+  exact dchooseGo_total_abs u _ (by rw [hself]; exact hu) p zero 0 hp rfl
+
+theorem iidLoop_total_abs (p : List α) (hp : p ≠ []) (hself : div (p.foldl add zero) (p.foldl add zero) = one)
+    (hu : ∀ x : Nat, x < 4294967296 → lt (div (ofNat x) (ofNat 4294967296) : α) one = true) :
+    ∀ (n : Nat) (r : Rng) (acc : Array Nat), ∃ out, (iidLoop p n r acc).1 = some out := by
+  intro n
+  induction n with
+  | zero => intro r acc; exact ⟨acc, rfl⟩
+  | succ n ih =>
+    intro r acc
+    simp only [iidLoop]
+    have hx : (r.randomNum).1 < 4294967296 := by
+      unfold Rng.randomNum
+      exact (r.next).1.toNat_lt
+    obtain ⟨k, hk⟩ := dchoose_total_abs (randomNum (α := α) r).1 p hp hself (by
+      unfold randomNum
+      exact hu _ hx)
+    rw [hk]
+    exact ih _ _
+end total
+
 end EaselModel.Shuffle
